@@ -343,3 +343,23 @@ Proof.
          | X : (_ <=? _) = true |- _ => apply Z.leb_le in X
          end. lia.
 Qed.
+
+(* ---- x/orderbook and x/house Params.Validate ------------------------------------------------------------------------------------------------ *)
+Definition gobp_of (P : params) : G_orderbookParams :=
+  {| G_orderbookParams_MaxOrderBookParticipations := pr_ob_maxpart P; G_orderbookParams_BatchSettlementCount := pr_ob_batch P;
+     G_orderbookParams_RequeueThreshold := pr_ob_thr P |}.
+Lemma gen_ob_Validate P : K_orderbookParams_Validate (gobp_of P) = (negb (pr_ob_maxpart P =? 0) && negb (pr_ob_batch P =? 0)).
+Proof.
+  unfold K_orderbookParams_Validate, K__validateMaxOrderBookParticipations, K_orderbook_validateBatchSettlementCount, K__validateRequeueThreshold.
+  cbv zeta. cbn [negb gobp_of G_orderbookParams_MaxOrderBookParticipations G_orderbookParams_BatchSettlementCount G_orderbookParams_RequeueThreshold].
+  destruct (pr_ob_maxpart P =? 0), (pr_ob_batch P =? 0); reflexivity.
+Qed.
+Definition ghp_of (P : params) : G_houseParams :=
+  {| G_houseParams_MinDeposit := pr_h_mindep P; G_houseParams_HouseParticipationFee := pr_h_fee P; G_houseParams_MaxWithdrawalCount := pr_h_maxw P |}.
+Lemma gen_house_Validate P : K_houseParams_Validate (ghp_of P) = ((1 <? pr_h_mindep P) && (0 <=? pr_h_fee P)).
+Proof.
+  unfold K_houseParams_Validate, K__validateMinimumDeposit, K__validateHouseParticipationFee. cbv zeta.
+  cbn [negb ghp_of G_houseParams_MinDeposit G_houseParams_HouseParticipationFee].
+  rewrite (Z.leb_antisym 1 (pr_h_mindep P)), (Z.ltb_antisym 0 (pr_h_fee P)).
+  destruct (1 <? pr_h_mindep P), (0 <=? pr_h_fee P); reflexivity.
+Qed.
